@@ -38,6 +38,11 @@ CHECKS["C06"] = dict(level="exploration", engine="seqx",
    text="Every command alone (27 instances of where/eval/fields/rename/fillnull/rex/regex/dedup/head/tail/sort/top/rare/bin/streamstats/makemv/mvexpand/stats) over all tables of <=3 (quick) / <=4 (thorough) rows from a 6-row alphabet, and every ordered pair over fixed 4-row tables (all <=3-row tables in thorough), is fed by a harness Streamer in every composition of the rows into batches, with EOF-with-data and with an inserted empty batch; the output must equal the one-batch output (as a sequence unless the chain contains stats/top/rare).",
    note="No storage involved. Several upstream streams (parallel chains) are not driven: the harness cannot reproduce the searcher's RRC-backed merge input (DESIGN C06). Crashes inside the storage-less harness are counted as inconclusive, not reported. Known: streamstats window not carried across batches.",
    ref="DESIGN.md §4 C06")
+CHECKS["C08"] = dict(level="exploration", engine="seqx",
+   technique="exhaustive enumeration of all short (timestamp-delta, value) sequences over boundary alphabets through the real codec, and of put/rotate/restart histories over collision-prone series sets through the real server endpoints",
+   text="Codec: all 17.6 M sequences of <=3 pairs over 20 values (-0, ulp neighbours, subnormal, extremes, +Inf, XOR leading-zero counts 11/12/31/32/52/63) x 13 deltas (delta-of-delta across every field boundary) through Compressor/DecompressIterator must decode bit-identically (length 4 over a 12x8 core in thorough). End to end (whole server booted in the worker, OpenTSDB put endpoint in, Prometheus range-query endpoint out): every ordered pair of values on one series x block/segment rotation between x rotation/graceful restart after, and every ordered pair of series from 7 collision-prone tag sets with rotations between; per-series selectors must return exactly the accepted points bit-exactly, the metric name exactly the ingested series.",
+   note="Segment rotation is the size-triggered one (forced rotation is the shutdown flush and is only used before a restart); the 5 s metadata re-read is fired explicitly after it. Known: -0.0 loses its sign; tag sets colliding under the key__value join are merged; a series first seen after a segment rotation is not returned. Tag-listing APIs are not yet compared.",
+   ref="DESIGN.md §4 C08")
 NOT_YET = {}
 props = [json.loads(l) for l in open("properties.jsonl")]
 m = {"version": 1, "setup_cmd": "./vcheck setup",
